@@ -84,11 +84,18 @@ def tokTime (o : Obs) (j : Nat) : Option Int :=
 def countToks (o : Obs) (p : Int → Bool) : Nat :=
   ((List.range o.total).filter fun j => match tokTime o j with | some t => p t | none => false).length
 
-/-- tokens released at least `margin` before the first cause: their instances must have been started -/
+/-- the largest heartbeat oversleep up to which the margin-based count checks are trusted -/
+def jitterMax : Int := 100000000
+
+/-- tokens released at least `margin` before the first cause, the start loop being free by then (the creation of the
+first instance is synchronous and may take long): their instances must have been started -/
 def lower (perinst : Bool) (o : Obs) : Nat :=
   match minOf (startCuts perinst o) with
   | none => o.total
-  | some c => countToks o (fun t => t ≤ c.2 - margin)
+  | some c =>
+    match o.binds.find? (·.1 == 0) with
+    | none => 0
+    | some b0 => if b0.2 ≤ c.2 - margin then countToks o (fun t => t ≤ c.2 - margin) else min 1 (countToks o (fun t => t ≤ c.2 - margin))
 
 /-- tokens released earlier than `margin` after the first cause: nothing beyond them is started -/
 def upper (perinst : Bool) (o : Obs) : Nat :=
@@ -102,6 +109,10 @@ within the margin of the cause; ammo or a shared RPS profile can only end after 
 def kBounds (perinst : Bool) (o : Obs) : Nat × Nat :=
   let lo := lower perinst o
   let hi := min (upper perinst o) o.toks.length
+  -- …and no creation is attempted later than `margin` after the first cause
+  let hi := match minOf (startCuts perinst o) with
+    | some c => min hi (o.guns.filter (· < c.2 + margin)).length
+    | none => hi
   match minOf (startCuts perinst o) with
   | some ("fail", _) => (lo, hi - o.fails)
   | some (kind, _) =>
@@ -151,7 +162,7 @@ where
     | none =>
     if o.k != ids.length then "fail:driver:k" else
     if (startCuts perinst o).isEmpty && o.err == "nil" && o.k != o.total then s!"fail:count:{o.k} instances for {o.total} tokens and nothing cut the start short" else
-    if o.k + o.fails < lower perinst o then s!"fail:missing:{o.k} instances, {lower perinst o} tokens were released {margin / 1000000} ms or more before the first cause {o.cuts}" else
+    if o.jitter ≤ jitterMax && o.k + o.fails < lower perinst o then s!"fail:missing:{o.k} instances, {lower perinst o} tokens were released {margin / 1000000} ms or more before the first cause {o.cuts}" else
     match minOf o.cuts, o.exits.head? with
     | none, some x => s!"fail:reduced:instance {x.1} finished at {x.2.1} ns although ammo, RPS profile and run were all still alive"
     | some c, _ =>
